@@ -139,7 +139,7 @@ CHECKS = {
 EXTRA = {
  'C01': ' Later strata: wrap of floats beyond 2^62 scaled, complex64 carriers, tiny complex components, Decimal scalars and lists, object ndarrays mixing ints and floats, a real value written by index into a complex array.',
  'C02': ' Later: theorem C02_saturate_side_float_any_width (words to 960 bits); program operations like= + scale / bias and set_best_sizes(); scaled objects with integer scale / bias at the int64 / uint64 edge; float scalars, lists and arrays saturating in words of 53..70 bits (value upper + 1 LSB, saturating element after an in-range one), Spec only.',
- 'C03': ' Later strata: + - * / sum / max of scalar, indexed and array operands through out= / op_out into narrow and 64..128-bit wrap registers with flags (Spec and arithmetic model), sums of more than 53 bits into registers with fewer fraction bits (Spec), 64..128-bit sources copied into core words (Spec and conversion model).',
+ 'C03': ' Later strata: dot / prod / cumsum and sums of 62..63-bit words into registers and into their optimal word beyond 64 bits (exact oracle and Reduce model); + - * / sum / max of scalar, indexed and array operands through out= / op_out into narrow and 64..128-bit wrap registers with flags (Spec and arithmetic model), sums of more than 53 bits into registers with fewer fraction bits (Spec), 64..128-bit sources copied into core words (Spec and conversion model).',
  'C04': ' Later strata: 54..63-bit integers into formats with negative n_frac (flags, callbacks, model); the inaccuracy flag through -x +x abs np.negative np.abs << >>; complex writes.',
  'C07': ' Later strata: the value method (op_method=repr) on operands built from integer values, forced integer formats.',
  'C08': ' Later strata: the constant under op_input_size=same is the number quantized under the operand\'s modes; NumPy numbers on the left.',
@@ -149,7 +149,7 @@ EXTRA = {
  'C12': ' Later strata: fxp_sum(dtype=) (utils.get_sizes_from_dtype) with x.dtype and every spelling; the notation switched on the object.',
  'C13': ' Later: theorems C13_arrays_and_or_xor / C13_arrays_not / C13_arrays_pairing (arrays of any length, any word) and the array model (opcode 61); arrays of codes on either or both sides, also as transposed 2-D views, scalar & array, De Morgan on arrays, NumPy masks on the left.',
  'C14': ' Later strata: NumPy integer shift counts; the value views real / imag and the array-ness of val after a shift.',
- 'C15': ' Later: theorem C15_cumprod_exact (+ C15_cumprod_entry_value) and the cumprod model; clip with float / one-sided / narrow NumPy / fixed-point / keyword bounds; tuples of axes; trace offsets on non-square matrices.',
+ 'C15': ' Later: C15_sum_exact / cumsum / prod / dot / trace hold for EVERY word length (Python-integer accumulation from 64 result bits on, fix aaa3394, modelled); theorem C15_cumprod_exact (+ C15_cumprod_entry_value) and the cumprod model; clip with float / one-sided / narrow NumPy / fixed-point / keyword bounds; tuples of axes; trace offsets on non-square matrices.',
  'C16': ' Later strata: the left object reached through four histories, array_op_method=raw, numbers on the left (Python and NumPy), the six NumPy comparison functions called by name.',
  'C17': ' Later strata: narrow NumPy carriers, fixed-point values as carriers, like= with scale= / bias=, raw writes on scaled objects, and a scaled object as first / second operand of + - * or as the out= target (it counts by the value it reads back; Spec only).',
  'C18': ' Later strata: lists of wide integers, the value buffer after an indexed write, 2-D renderings of wide arrays.',
